@@ -185,6 +185,8 @@ class Built:
         self._att_call = (a_call_s, a_call_e)
         self._targets = {}
         self._ctx_calls = {}
+        self._ctx_objs = {}
+        self.reuse_context = bool(scn.get("reuse_context")) and not scn.get("concurrent")
         self.shared_context = bool(scn.get("concurrent")) and bool(scn.get("shared_context"))
         self.target_for(entry)
 
@@ -346,6 +348,13 @@ def _invoke_sync(built: Built, env: Env, e: str, how: str):
         return decorated()
     op = env.op_for(env.cs().cid, False)
     if e.endswith(".context"):
+        if built.reuse_context:
+            # one bound context object, entered again for every call (an earlier block may have been left by an exception)
+            bound = built._ctx_objs.get(e)
+            if bound is None:
+                bound = built._ctx_objs[e] = target.context(**kw)
+            with bound as call:
+                return call(op)
         with target.context(**kw) as call:
             return call(op)
     if how == "execute":
@@ -366,6 +375,12 @@ async def _invoke_async(built: Built, env: Env, e: str, how: str):
             if call is None:
                 call = built._ctx_calls[e] = await target.context(**kw).__aenter__()
             return await call(op)
+        if built.reuse_context:
+            bound = built._ctx_objs.get(e)
+            if bound is None:
+                bound = built._ctx_objs[e] = target.context(**kw)
+            async with bound as call:
+                return await call(op)
         async with target.context(**kw) as call:
             return await call(op)
     if how == "execute":
@@ -521,8 +536,14 @@ def run_retry_scenario(scn: dict, chooser=None):
                 for t in tasks:
                     await t
 
-            _, lp = simloop.run(clock, main, chooser=chooser)
-            info.update(steps=lp.steps, multi_ready=lp.multi_ready, choices=lp.choices, jumps=lp.jumps)
+            try:
+                _, lp = simloop.run(clock, main, chooser=chooser)
+                info.update(steps=lp.steps, multi_ready=lp.multi_ready, choices=lp.choices, jumps=lp.jumps)
+            except simloop.SimDeadlock as exc:
+                # nothing is runnable and no timer is pending, or the step cap was hit: the call never returns
+                env.cur = None
+                env.ev("HANG", why=str(exc))
+                info.update(steps=0, multi_ready=0, choices=[], jumps=0, hang=True)
         for op in scn.get("post") or []:
             apply_component_op(env, built, op)
         info["built"] = built
